@@ -22,6 +22,7 @@ def main():
         from . import gen_tables
 
         gen_tables.gen_c12()
+        gen_tables.gen_c13()
         ok, log = common.lake_build(["MwVerif", "driver"])
         print(log[-3000:])
         sys.exit(0 if ok else 2)
